@@ -524,6 +524,29 @@ fn replay(path: &str) -> Value {
                 }
             }
         }
+        // nested prefix operators on a hidden operand (`-(!a)`, `!(-a)`, `-(-a)`, `!(!a)`): the one-expression form must
+        // agree with the same two applications made in two statements (twins; a peephole on operator pairs shows here)
+        if b.is_none() && ty != Ty::Float {
+            let tn = ty.name();
+            let ops: &[&str] = if ty == Ty::Int { &["-", "!"] } else { &["!"] };
+            for o1 in ops {
+                for o2 in ops {
+                    let f = format!("(a: {tn}) -> {tn} {{ return {o1}({o2}a) }}");
+                    let g = format!("(a: {tn}) -> {tn} {{ t := {o2}a; return {o1}t }}");
+                    let (out_f, _) = cache.call_api(&f, false, vec![a.var()]);
+                    let (out_g, _) = cache.call_api(&g, false, vec![a.var()]);
+                    if out_f != out_g {
+                        let mut d = case_json(t, op, a, None);
+                        d["form"] = json!("nested-prefix");
+                        d["program"] = json!(format!("{f} called with ({})", a.show()));
+                        d["expected"] = out_show(&out_g);
+                        d["got"] = out_show(&out_f);
+                        d["twin"] = json!(format!("{g} called with ({})", a.show()));
+                        mm.push("nested-prefix", d);
+                    }
+                }
+            }
+        }
         // chains `a op b op b`: left-associative, every application on its own — the form with a hidden first operand
         // and literal constants (what a folder might re-associate) must agree with the fully parenthesised form over
         // parameters (no oracle needed: the two are twins)
